@@ -5,8 +5,13 @@ import "fmt"
 // Enums: the stringer name/index tables of Severity and ArchOp.
 func init() {
 	Register(Gen{Name: "Enums", Run: func(repo string) (string, error) {
-		out := Header("Enums", "severity_string.go", "archop_string.go")
-		for _, e := range []struct{ file, typ string }{{"severity_string.go", "Severity"}, {"archop_string.go", "ArchOp"}} {
+		out := Header("Enums", "severity_string.go", "archop_string.go", "toolkit/types/generate_string.go")
+		for _, e := range []struct{ file, typ, as string }{
+			{"severity_string.go", "Severity", "Severity"}, {"archop_string.go", "ArchOp", "ArchOp"},
+			// the copies of the same types (and PackageKind) in toolkit/types share one generated file
+			{"toolkit/types/generate_string.go", "Severity", "TkSeverity"}, {"toolkit/types/generate_string.go", "ArchOp", "TkArchOp"},
+			{"toolkit/types/generate_string.go", "PackageKind", "PackageKind"},
+		} {
 			_, f, err := ParseFile(repo, e.file)
 			if err != nil {
 				return "", err
@@ -19,13 +24,13 @@ func init() {
 			if err != nil {
 				return "", err
 			}
-			out += fmt.Sprintf("def %sName : String := %s\n", lower(e.typ), LeanString(name))
-			out += fmt.Sprintf("def %sIndex : List Nat := %s\n", lower(e.typ), LeanNatList(idx))
+			out += fmt.Sprintf("def %sName : String := %s\n", lower(e.as), LeanString(name))
+			out += fmt.Sprintf("def %sIndex : List Nat := %s\n", lower(e.as), LeanNatList(idx))
 			bs := make([]int64, len(name))
 			for i := 0; i < len(name); i++ {
 				bs[i] = int64(name[i])
 			}
-			out += fmt.Sprintf("def %sNameBytes : List Nat := %s\n\n", lower(e.typ), LeanNatList(bs))
+			out += fmt.Sprintf("def %sNameBytes : List Nat := %s\n\n", lower(e.as), LeanNatList(bs))
 		}
 		return out + Footer("Enums"), nil
 	}})
